@@ -182,6 +182,9 @@ func runMmc(r *Rec) {
 	}
 	r.Bytes = cp(bt)
 	g := &recvMsg // ONE receiver value for all messages of the process, as a receiving program has it
+	if r.ID%3 == 0 { // ... which has just received a RESPONSE of another device (nothing of it may stick)
+		hx.Catch(func() { g.Parse([]byte{0xF0, 0x7F, byte(1 + (r.Dev+5)%127), 0x07, 0x01, 0x02, 0xF7}) })
+	}
 	var err error
 	p := hx.Catch(func() { err = g.Parse(append([]byte(nil), bt...)) })
 	switch {
